@@ -15,7 +15,7 @@ META = dict(
                 "from the real Republisher (1 ms / 4 ms timers, gated PubFunc, 2-5 client goroutines, directed + stress + "
                 "random schedules) are validated by TLC as behaviours of the same model with the properties enforced."),
     level_note=("Trusted: harness projection (CID<->small int, thread numbers, ok/timeout), event order = emission order; "
-                "assumption: a 1.5 s WaitPub context / Close's 5 s only expire when the wait cannot complete. "
+                "assumption: a 3 s WaitPub context / Close's 5 s only expire when the wait cannot complete. "
                 "Implementation side is sampled (schedules chosen by the Go scheduler), model side exhaustive for small constants."),
     technique="TLA+ model of run loop + clients; TLC exhaustive safety + liveness; recorded concurrent traces validated by TLC with silent actions",
 )
@@ -107,7 +107,7 @@ def nontrivial_runs(ctx, recs, tag):
 
 
 def run(ctx):
-    ctx.assumptions += ["a WaitPub context of 1.5 s (Close: 5 s) expires only if the wait cannot complete (timers 1/4 ms, <= 2 ordered failures)",
+    ctx.assumptions += ["a WaitPub context of 3 s (Close: 5 s) expires only if the wait cannot complete (timers 1/4 ms, <= 2 ordered failures)",
                         "event order in the trace = order of emission under the harness mutex",
                         "PubFunc outcome is decided by the harness gate (FailNext k)"]
     ctx.cov["rule"] = ("M: all interleavings of 2 updaters + waiter + closer with timer firings and <= 2 publish failures "
